@@ -51,6 +51,8 @@ CELLS = {
     "ortho_1_2_3": _rat(_vec((2, 3, 4), (90, 90, 90))),
     "ortho_ratio6": _rat(_vec((1, 3, 6), (90, 90, 90))),
     "monoclinic70": _rat(_vec((3, 4, 5), (90, 70, 90))),
+    "monoclinic_alpha70": _rat(_vec((3, 3, 3.2), (70, 90, 90))),      # only c_y off-diagonal
+    "monoclinic_gamma70": _rat(_vec((3, 3.3, 4), (90, 90, 70))),      # only b_x off-diagonal
     "monoclinic110": _rat(_vec((3, 4, 5), (90, 110, 90))),
     "hexagonal60": _rat(_vec((3, 3.1, 4), (90, 90, 60))),     # (b slightly longer than a: the ideal cell sits on a rounding tie)
     "hexagonal120": _rat(_vec((3, 3.1, 4), (90, 90, 120))),
@@ -94,7 +96,7 @@ def native(src="geometry.cpp"):
     mod, d = module(src)
     key = src + ":so"
     if key not in _WORK:
-        _WORK[key] = ctypes.CDLL(L.compile_native([GEO + "/src/" + src], INC, d, name=src.split(".")[0]))
+        _WORK[key] = ctypes.CDLL(L.compile_native([GEO + "/src/" + src], INC, d, name=src.split(".")[0], extra=["-D__NO_INTRINSICS"]))
     return _WORK[key]
 
 
